@@ -1772,6 +1772,9 @@ impl ParserState {
 
         debug!("  flush_lexer() OK");
 
+        // the parser state changed without any byte being added
+        self.last_force_bytes_len = usize::MAX;
+
         if lexer_eos {
             return true;
         }
